@@ -30,6 +30,16 @@ CHECKS["C19"] = dict(
     technique="Coq proof by induction over outcome histories + model/implementation correspondence",
 )
 
+CHECKS["C15"] = dict(
+    category="proof",
+    text=("Coq model of Multicast._initialize/subscribe/unsubscribe with the NCP table; theorems for every table size, every admissible "
+          "initial table and every call sequence: index partition invariant under every answer incl. timeouts, host view = NCP table "
+          "when writes are answered, idempotent subscribe, full table, failed call keeps the free count. Tied to the real Multicast "
+          "class by correspondence (exhaustive short sequences x sizes x answers, random long ones; Python's set.pop choice fed to the model)."),
+    design_ref="DESIGN.md section 6 C15",
+    technique="Coq proof (invariants by induction over call sequences) + model/implementation correspondence",
+)
+
 NOT_YET = {}
 
 
